@@ -50,7 +50,10 @@ Definition el (t : int * int * int * int) : elem :=
 
 Inductive case :=
 | ICDiff (df th : int) (L R : list (int * int * int * int)) (wire_ : bool) (new changed removed : list int)
-| ICCompare (df th : int) (L R : list (int * int * int * int)) (wire_ : bool) (new ours theirs removed : list int).
+| ICCompare (df th : int) (L R : list (int * int * int * int)) (wire_ : bool) (new ours theirs removed : list int)
+(* a pair too large for vm_compute (thousands of elements): compared by the harness against the set difference only;
+   carried here just to give the case an index (sizes of the two sides) *)
+| ICLarge (nl nr : int).
 
 Definition conv (c : case) : ncase :=
   match c with
@@ -58,6 +61,7 @@ Definition conv (c : case) : ncase :=
       CDiff (n_of df) (n_of th) (map el L) (map el R) w (map n_of n) (map n_of ch) (map n_of rm)
   | ICCompare df th L R w n o t rm =>
       CCompare (n_of df) (n_of th) (map el L) (map el R) w (map n_of n) (map n_of o) (map n_of t) (map n_of rm)
+  | ICLarge _ _ => CDiff 2 1 [] [] false [] [] []
   end.
 
 Fixpoint check_from (i : N) (l : list case) : list (N * N) :=
